@@ -68,7 +68,7 @@ class FaultyConverter:
 
 def generate(rng, tier, prop):
     kn = docgen.draw_knobs(rng, tier, "utf-8")
-    kn.update({"nblocks": rng.choice([1, 2, 3, 5, 8]), "names": True, "collide": rng.random() < 0.15,
+    kn.update({"nblocks": rng.choice([1, 2, 3, 5, 8]) if rng.random() > (0.02 if tier == "quick" else 0.08) else rng.choice([40, 150]), "names": True, "collide": rng.random() < 0.15,
                "p_string": rng.choice([1.5, 3, 4]), "maxfields": rng.choice([2, 5, 8])})
     doc = docgen.make_doc(rng, kn)["text"]
     direction = rng.choice(["encode", "decode"])
@@ -117,6 +117,10 @@ def _mask_graph(o, seen, depth=0):
     if id(o) in seen or depth > 60 or isinstance(o, (str, int, float, type(None), BaseException, type)):
         return
     seen.add(id(o))
+    if isinstance(o, (M.Entry, M.String)):
+        # the statement lists keys, types, other blocks, raw text and start lines as untouched;
+        # the middleware's own metadata on the blocks it converts is not listed, so it is masked too
+        o._parser_metadata = "<M>"
     if isinstance(o, M.Entry):
         for f in o.fields:
             if isinstance(f.value, str):
